@@ -117,6 +117,9 @@ def learn(cfg, rng):
         X = np.clip(X - 1.0, -1.0, 1.0)
         X = np.vstack([X, [[-1.0, -1.0], [1.0, 1.0], [-1.0, 1.0], [1.0, -1.0]]])
         y = np.concatenate([y, [0, 1, 0, 1]]).astype(np.int64)
+    if cfg.get('scale'):
+        # features of very small / very large magnitude: every clause is about positions relative to the learned range
+        X = X * float(cfg['scale'])
     if cfg.get('unlabelled'):
         y = y.copy()
         y[rng.sample(range(len(y)), 4)] = -1
@@ -124,7 +127,7 @@ def learn(cfg, rng):
     dr = None
     if cfg.get('range'):
         # user-given learning range: wider than the data on one side, cutting into the data on the other
-        dr = (X.min(axis=0) - 0.5, X.max(axis=0) - np.array([0.3, 0.0]))
+        dr = (X.min(axis=0) - 0.5 * float(cfg.get('scale', 1.0)), X.max(axis=0) - np.array([0.3, 0.0]) * float(cfg.get('scale', 1.0)))
     with impl.quiet(), impl.watchdog(600):
         clf = Classification(ds, data_range=dr, split_percentage=cfg['split'], split_evenly=cfg['even'], shuffle_data=cfg.get('shuffle', False))
         if cfg['dimwise']:
@@ -170,7 +173,7 @@ def make_batch(rng, kind, lo, hi, ncls, n):
     return X, y
 
 
-def record_call(clf, kind, X, y, lo, hi, classes_before, share=False, X_asgiven=None):
+def record_call(clf, kind, X, y, lo, hi, classes_before, share=False, X_asgiven=None, mutate_after=False):
     """share=True: the DataSet is built around the caller's arrays themselves (no copy); the expected outcome is always computed from
     the values the caller handed over"""
     from sparseSpACE.DEMachineLearning import DataSet
@@ -199,6 +202,15 @@ def record_call(clf, kind, X, y, lo, hi, classes_before, share=False, X_asgiven=
         e['raised'] = True
         e['_exc'] = '%s: %s' % (type(ex).__name__, ex)
     e['classes'] = [int(v) for v in np.asarray(clf.get_calculated_classes_testset()).tolist()]
+    if mutate_after and not ds.is_empty():
+        # the caller goes on using ITS data set object after the call (drops the labels, moves the samples): what the classifier stored at the
+        # time of the call must not follow
+        try:
+            with impl.quiet():
+                ds.remove_labels(1.0)
+                ds.shift_value(1.0, override_scaling=True)
+        except Exception:
+            pass
     return e
 
 
@@ -219,6 +231,11 @@ def run(tier, seed):
             dict(ncls=2, n=60, split=0.8, even=True, dimwise=True, lump=True, lam=0.0),
             dict(ncls=2, n=50, split=1.0, even=True, dimwise=False, lump=True, lam=0.0, unlabelled=True),
             dict(ncls=2, n=60, split=0.7, even=False, dimwise=False, lump=True, lam=0.0, range=True),
+            # the whole data set is used for learning (constructor default): the stored test set is empty before the first test call
+            dict(ncls=2, n=50, split=1.0, even=True, dimwise=False, lump=True, lam=0.0, nseq=3, first_labelled_test=True),
+            # features of very small and very large magnitude
+            dict(ncls=2, n=60, split=0.8, even=True, dimwise=False, lump=True, lam=0.0, scale=1e-4, nseq=3),
+            dict(ncls=2, n=60, split=0.8, even=False, dimwise=False, lump=True, lam=0.0, scale=1e4, range=True, nseq=2),
             # fine component grids (>= 200 points: the point-by-point evaluation path) and samples exactly on grid lines
             dict(ncls=2, n=80, split=0.8, even=True, dimwise=False, lump=True, lam=0.0, lmax=7, symmetric=True, nseq=2)]
     if tier == 'thorough':
@@ -253,6 +270,10 @@ def run(tier, seed):
                 kind = rng.choice(['call', 'test', 'test', 'call'])
                 bk = rng.choice(['inside', 'mixed', 'mixed', 'outside', 'labelled-only'] + (['gridline'] * 6 if c.get('symmetric') else []))
                 share = False
+                force_mutate = False
+                if step == 0 and c.get('first_labelled_test'):
+                    # the first data the classifier stores is a fully labelled test set, and the caller goes on using that data set object
+                    kind, bk, force_mutate = 'test', 'labelled-only', True
                 if step > 0 and prev_xy is not None and rng.random() < 0.35:
                     # the caller hands over the very arrays it used for the previous call (a DataSet is built around them again)
                     X, y, X_asgiven = prev_xy
@@ -261,7 +282,7 @@ def run(tier, seed):
                 else:
                     X, y = make_batch(rng, bk, lo, hi, c['ncls'], rng.randint(3, 8) if bk != 'gridline' else 24)
                     X_asgiven = None
-                    share = rng.random() < 0.5
+                    share = rng.random() < 0.5 and not force_mutate
                     if share:
                         X, y = np.ascontiguousarray(X, dtype=np.float64), np.ascontiguousarray(y, dtype=np.int64)
                 if share and X_asgiven is None:
@@ -277,7 +298,7 @@ def run(tier, seed):
                         raise
                     except Exception:
                         pass      # the partner's own behaviour is judged in its own trace
-                e = record_call(clf, kind, X, y, lo, hi, None, share=share, X_asgiven=X_asgiven if share else None)
+                e = record_call(clf, kind, X, y, lo, hi, None, share=share, X_asgiven=X_asgiven if share else None, mutate_after=(not share and (force_mutate or rng.random() < 0.5)))
                 evs.append(e)
                 script.append([kind, bk])
             if c['dimwise'] and s % 2 == 0:
